@@ -69,6 +69,7 @@ func genHpackTables(repo string) (string, error) {
 //	h2_cont_advance             mhttp2.go readMetaFrame: the recursive ReadFrame call reads at `off+msize` (true) or at `off` (false)
 //	h2_client_settings_wakes    mhttp2.go MClientConn.processSettings: contains a call cc.cond.Broadcast()
 //	h2_client_settings_validated mhttp2.go MClientConn.processSettings: calls s.Valid() on every setting
+//	h2_winupd_wakes_always      mhttp2.go MServerConn/MClientConn.processWindowUpdate: cond.Broadcast() is a top-level statement of both bodies (true) or nested in an `if` in both (false)
 //	h2_write_chunk              mhttp2.go MFramer.writeData: const maxFrameSize
 //	h2_stream_err_drains        mhttp2.go MFramer.ReadFrame: a StreamError path drains the offending frame (data.Drain inside `if _, ok := err.(StreamError)`)
 //	h2_dispatch_continues       stream/http2/stream.go Dispatch (server and client): a StreamError does not leave the decode loop
@@ -192,6 +193,56 @@ func genH2Src(repo string) (string, error) {
 		})
 	}
 	fmt.Fprintf(&b, "Definition h2_client_settings_validated := %v.\n", validated)
+	// --- processWindowUpdate (server and client): is cond.Broadcast() a top-level statement of the body ("top") or nested in an if ("if")
+	wuShape := func(recv string) string {
+		fd := FindFunc(mf, recv, "processWindowUpdate")
+		if fd == nil {
+			return ""
+		}
+		isBroadcast := func(n ast.Node) bool {
+			c, isCall := n.(*ast.CallExpr)
+			if !isCall {
+				return false
+			}
+			sel, isSel := c.Fun.(*ast.SelectorExpr)
+			return isSel && sel.Sel.Name == "Broadcast"
+		}
+		total, top, inIf := 0, 0, 0
+		ast.Inspect(fd.Body, func(n ast.Node) bool {
+			if n != nil && isBroadcast(n) {
+				total++
+			}
+			return true
+		})
+		for _, st := range fd.Body.List {
+			switch x := st.(type) {
+			case *ast.ExprStmt:
+				if isBroadcast(x.X) {
+					top++
+				}
+			case *ast.IfStmt:
+				ast.Inspect(x, func(n ast.Node) bool {
+					if n != nil && isBroadcast(n) {
+						inIf++
+					}
+					return true
+				})
+			}
+		}
+		switch {
+		case total == 1 && top == 1:
+			return "top"
+		case total == 1 && inIf == 1:
+			return "if"
+		}
+		return ""
+	}
+	wuS, wuC := wuShape("MServerConn"), wuShape("MClientConn")
+	wuAlways := wuS == "top" && wuC == "top"
+	if !(wuAlways || (wuS == "if" && wuC == "if")) {
+		ok = false
+	}
+	fmt.Fprintf(&b, "Definition h2_winupd_wakes_always := %v.\n", wuAlways)
 	// --- writeData chunk constant
 	chunk := ""
 	if fd := FindFunc(mf, "MFramer", "writeData"); fd != nil {
